@@ -40,8 +40,9 @@ ASSUMPTIONS = [
     "unreadable-file faults are explored in the thorough tier only",
 ]
 BOUNDS = {
-    "quick": {"max_depth": "S: 11 (1 dir) / 7 (2 dirs); L: 9 (2 uris) / 7 (3 uris)", "versions": "A,B,broken", "time_budget_s": 90},
-    "thorough": {"max_depth": "S: 40 (fixpoint sought)/9/6 for 1/2/3 dirs; L: 12/8/6/5/4 for 2/3/4/5/7 uris; groups explored one after the other", "versions": "A,B,broken,unreadable", "time_budget_s": 780},
+    "quick": {"alias": "put_template of a file-backed Template under another URI: all histories of <= 4 events over {tick, write, get alias, get own uri, has alias} x filesystem_checks x collection_size {-1,4} x module directory x {Template(filename=), lookup.get_template}",
+              "max_depth": "S: 11 (1 dir) / 7 (2 dirs); L: 9 (2 uris) / 7 (3 uris)", "versions": "A,B,broken", "time_budget_s": 90},
+    "thorough": {"alias": "as quick with histories of <= 5 events", "max_depth": "S: 40 (fixpoint sought)/9/6 for 1/2/3 dirs; L: 12/8/6/5/4 for 2/3/4/5/7 uris; groups explored one after the other", "versions": "A,B,broken,unreadable", "time_budget_s": 780},
 }
 READY = True
 
@@ -659,12 +660,118 @@ def expand(cfg, hist):
     return out
 
 
+# --------------------------------------------------------------------------
+# alias family (plain enumeration, not BFS): a file-backed Template object registered by put_template under a URI that
+# is not its own ("p" for the file "u").  It is served under "p"; with filesystem_checks it follows its source file
+# like any other entry (fresh after a modification one whole second later, the very same object while nothing changes),
+# without them it keeps being returned.  All histories of <= 4 events after the registration.
+
+ALIAS_EVENTS = ["tick", "write", "get_p", "get_u", "has_p"]
+
+
+def alias_cases(tier):
+    import itertools
+
+    n = 4 if tier == "quick" else 5
+    for fs in (True, False):
+        for size in (-1, 4):
+            for moddir in (False, True):
+                for how in ("template-filename", "lookup-get"):
+                    cfg = {"mode": "S", "dirs": 1, "uris": 1, "fs_checks": fs, "size": size, "moddir": moddir}
+                    for k in range(1, n + 1):
+                        for seq in itertools.product(range(len(ALIAS_EVENTS)), repeat=k):
+                            if ALIAS_EVENTS[seq[-1]] not in ("get_p", "has_p"):
+                                continue  # a history is judged at its gets
+                            yield {"kind": "alias", "cfg": cfg, "how": how, "seq": [ALIAS_EVENTS[i] for i in seq]}
+
+
+def run_alias(case, st):
+    from mako import exceptions
+
+    cfg, how = case["cfg"], case["how"]
+    w = World(cfg)
+    viol = None
+    try:
+        w.step(("write", 0, "u", "A"))
+        w.step(("tick",))
+        w.step(("tick",))
+        if how == "lookup-get":
+            obj = w.lookup.get_template("u")
+        else:
+            obj = w.RealTemplate(filename=w.path(0, "u"), lookup=w.lookup, uri="u", module_directory=w.moddir)
+        w.lookup.put_template("p", obj)
+        cur = "A"  # version on disk
+        ent = {"obj": obj, "version": "A", "compiled": w.clock.now, "dirty": None}  # dirty: mtime of a write since the compile
+        nxt = "B"
+        for i, ev in enumerate(case["seq"]):
+            st.transitions += 1
+            if ev == "tick":
+                w.step(("tick",))
+            elif ev == "write":
+                w.step(("write", 0, "u", nxt))
+                cur, nxt = nxt, cur
+                ent["dirty"] = w.clock.now
+            elif ev == "get_u":
+                try:
+                    w.lookup.get_template("u")
+                except Exception as e:  # noqa
+                    viol = ("alias:get of the file's own uri raises", "get_template('u') succeeds", "template", "%s: %s" % (type(e).__name__, e))
+                    break
+            elif ev == "has_p":
+                st.evaluations += 1
+                try:
+                    r = w.lookup.has_template("p")
+                except Exception as e:  # noqa
+                    r = "%s: %s" % (type(e).__name__, e)
+                if r is not True:
+                    viol = ("alias:has_template", "a put_template entry is served under its URI (has_template True)", True, r)
+                    break
+            else:
+                st.evaluations += 1
+                try:
+                    t = w.lookup.get_template("p")
+                except Exception as e:  # noqa
+                    viol = ("alias:get raises %s" % type(e).__name__, "a put_template entry is served under its URI", "template", "%s: %s" % (type(e).__name__, str(e)[:120]))
+                    break
+                got = _render_of(t)
+                must_fresh = cfg["fs_checks"] and ent["dirty"] is not None and ent["dirty"] >= ent["compiled"] + 1
+                may_fresh = cfg["fs_checks"] and ent["dirty"] is not None
+                if must_fresh or (may_fresh and t is not ent["obj"]):
+                    st.oracles["alias:fresh"] += 1
+                    if got != marker(0, "u", cur):
+                        viol = ("alias:stale" if t is ent["obj"] or got == marker(0, "u", ent["version"]) else "alias:wrong content", "the entry reflects the current content of its source file (modified one whole second after the compile)", marker(0, "u", cur), got)
+                        break
+                    ent = {"obj": t, "version": cur, "compiled": w.clock.now, "dirty": None}
+                else:
+                    st.oracles["alias:stable"] += 1
+                    if t is not ent["obj"]:
+                        viol = ("alias:another object", "while nothing on disk changes (or without filesystem checks) the very same Template object is returned", "same object", got)
+                        break
+                    if got != marker(0, "u", ent["version"]):
+                        viol = ("alias:wrong content", "the entry renders the version it was compiled from", marker(0, "u", ent["version"]), got)
+                        break
+    finally:
+        w.close()
+    st.states += 1
+    st.traces += 1
+    st.nontrivial += 1
+    st.outcomes[("alias", "ok" if viol is None else viol[0])] += 1
+    if viol is not None:
+        st.violation(viol[0], case, viol[1], expected=viol[2], observed=viol[3])
+
+
 def plan(tier, seed):
-    return []
+    cases = list(alias_cases(tier))
+    n = core.NPROC * 2
+    return [{"kind": "alias", "cases": cases[i::n]} for i in range(n)]
 
 
 def run_job(job):
-    return Stats()
+    st = Stats()
+    for c in job["cases"]:
+        run_alias(c, st)
+    st.extra["alias_histories"] = len(job["cases"])
+    return st
 
 
 def post(tier, seed, st):
@@ -673,6 +780,12 @@ def post(tier, seed, st):
 
 
 def replay(case):
+    if case.get("kind") == "alias":
+        st = Stats()
+        run_alias(case, st)
+        if st.violations:
+            return False, "reproduced: %r" % (st.violations[0]["observed"],)
+        return True, "holds"
     cfg = case["cfg"]
     hist = [tuple(e) for e in case["hist"]]
     w = build(cfg, hist[:-1])
